@@ -1,5 +1,6 @@
 """C04 completion handlers — never inline, owned, never silently discarded,
 aborted from every teardown entry point, no dangling completion context."""
+import simlib
 import q, engines, handlers
 from handlers import EMPTY
 from simlib import is_node, strip_targs
@@ -44,7 +45,7 @@ TEARDOWN = {
 
 
 def core_fns(fx):
-    return [f for f in fx.repo_functions() if (f.cls in CORE or (q.top_function(fx, f).cls in CORE)) and f.file.startswith('/repo/')]
+    return [f for f in fx.repo_functions() if (f.cls in CORE or (q.top_function(fx, f).cls in CORE)) and f.file.startswith(simlib.REPO_PREFIX)]
 
 
 def is_packet_fn(fn, fl):
@@ -106,6 +107,9 @@ def check(run):
             elif fl.kind == 'copy':
                 run.violation('R6-FLOW', 'copied-handler', construct + ' -> ' + str(fl.dest), loc,
                               'handler passed by value without std::move: aux::function\'s copy constructor yields an EMPTY function, the real handler is never invoked')
+            elif fl.kind == 'byref' and fl.via and fl.via[0] in ('std::bind', 'sim::aux::make_malloc', 'boost::beast::bind_handler', 'sim::aux::move_bind', 'lambda') and fl.dest in ('post', 'timer', 'dispatch'):
+                run.violation('R6-FLOW', 'copied-handler', construct + ' -> ' + str(fl.dest), loc,
+                              'the handler is bound as an lvalue (no std::move): the closure stores a COPY, and aux::function\'s copy constructor yields an empty function, so the real handler is never invoked')
             elif fl.kind == 'byref':
                 run.unrecognised('R6-FLOW', 'byref', construct + ' -> ' + str(fl.dest), loc, 'handler passed by non-const reference to ' + str(fl.dest))
             elif fl.kind == 'invoke':
